@@ -680,6 +680,44 @@ def r13_placing_on_load_changes_nothing(idx, r):
                       "written one")
 
 
+def r14_file_values_win(idx, r):
+    """(a) Database.load reads every stored parameter and then calls _assignBlueprintsParams.  Whatever that step assigns comes AFTER the file
+    values, so it must not reach an object whose parameters were read: today it looks the loaded objects up under their class OBJECT in a table
+    the layout keys by class NAME, i.e. it touches nothing.  Any form of the step that does reach loaded objects must guard each store by a test
+    that the file did not provide the parameter; otherwise a state saved with a value that differs from the blueprint loads with the blueprint's.
+    (b) on load, Core.add -> orientBlocks -> autoCreateSpatialGrids runs for every block: a block that already has its lattice (rebuilt from the
+    file, possibly rotated) must keep the locators of its children - every store into a child's spatialLocator there sits behind
+    `self.spatialGrid is None`.  (c) the stored flag order is the bit order (shared with R05.4)."""
+    ld = idx.method(DB + ".Database", "load")
+    ab = idx.method(DB + ".Database", "_assignBlueprintsParams")
+    if ab is None or not any(dotted(c.func) == "self._assignBlueprintsParams" for c in iter_calls(ld.node)):
+        r.ok("blueprint-step-absent", ld)
+    else:
+        sts = [s_ for s_ in iter_stores(ab.node) if s_.kind == "subscript" and norm(s_.node.value).endswith(".p")]
+        for s_ in sts:
+            comp = norm(s_.node.value)[:-2]
+            loop = next((x for x in walk_local(ab.node) if isinstance(x, ast.For) and norm(x.target) == comp), None)
+            inert = loop is not None and isinstance(loop.iter, ast.Subscript) and norm(loop.iter.value) == ab.params()[-1] and isinstance(loop.iter.slice, ast.Name)
+            if inert:
+                outer = next((x for x in walk_local(ab.node) if isinstance(x, ast.For) and isinstance(x.target, ast.Tuple) and any(norm(e) == norm(loop.iter.slice) for e in x.target.elts)), None)
+                inert = outer is not None and isinstance(outer.iter, ast.Tuple) and all(isinstance(e, ast.Tuple) and isinstance(e.elts[0], ast.Name) and e.elts[0].id[:1].isupper() for e in outer.iter.elts)
+            guarded = any(("not in" in norm(t) and p) or ("is None" in norm(t) and p) or ("NoDefault" in norm(t)) for t, p in path_conditions(ab.node, s_.stmt) if comp in norm(t))
+            r.require(inert or guarded, "_assignBlueprintsParams:never-overrides-file-values", ab, node=s_.stmt,
+                      msg=f"`{norm(s_.stmt)}` runs after the parameters were read from the file and reaches the loaded objects without testing whether the file provided the value: a snapshot whose "
+                          "nozzleType / hotChannelFactors / control-rod elevations differ from the blueprint loads with the blueprint's values")
+    ac = idx.method("armi.reactor.blocks.HexBlock", "autoCreateSpatialGrids")
+    sl = [s_ for s_ in iter_stores(ac.node) if s_.attr == "spatialLocator" and s_.chain and not s_.chain.startswith("self.")]
+    if len(sl) < 2:
+        raise AnchorMissing("HexBlock.autoCreateSpatialGrids: stores into the children's spatialLocator")
+    for s_ in sl:
+        conds = {(norm(t), p) for t, p in path_conditions(ac.node, s_.stmt)}
+        r.require(("self.spatialGrid is None", True) in conds or ("self.spatialGrid is not None", False) in conds, f"autoCreateSpatialGrids:{norm(s_.value)[:30]}:only-for-a-block-without-grid", ac, node=s_.stmt,
+                  msg=f"`{norm(s_.stmt)[:60]}` also runs for a block that already has its pin lattice: on load every auto-gridded block gets its pins re-seated in the un-rotated order, so a saved rotated "
+                      "block comes back with other lattice sites")
+    from .c05 import r4_flags
+    r4_flags(idx, r)
+
+
 def run(idx, chk):
     chk.explanation = (
         "C04: Layout.writeToDB/_readLayout, _createLayout/_initComps/_compose, _packLocationsV3/_unpackLocationsV2, "
@@ -715,4 +753,6 @@ def run(idx, chk):
     chk.run_rule("R04.12", "when the hierarchy is rebuilt, only index-kind locations are looked up on the parent's grid", lambda r: r12_compose_location_kinds(idx, r), floor=1,
                  necessary="every object is loaded with the kind of location it was written with")
     chk.run_rule("R04.13", "placing an assembly that was read from a database changes none of its parameters", lambda r: r13_placing_on_load_changes_nothing(idx, r), floor=2,
+                 necessary="loading returns the state as written")
+    chk.run_rule("R04.14", "values read from the file are final: the blueprint step and the auto-grid step leave loaded state alone; stored flag order is the bit order", lambda r: r14_file_values_win(idx, r), floor=5,
                  necessary="loading returns the state as written")
